@@ -728,22 +728,30 @@ theorem ivPopBack_ok {cap base : Nat} {m : Mem} {n : Nat} (hv : VecAt m base cap
   simp only [ivPopBack, Nat.ne_of_gt hpos, if_false]
   exact r
 
-/-- move constructor of `inplace_vector`: the elements are moved over and the source is cleared -/
+/-- move constructor of `inplace_vector`: the elements are moved over and the source is cleared — or, for a trivially
+    move constructible element type (the defaulted member), keeps its size and its elements -/
 theorem ivMoveConstruct_ok (k : Kind) {cap dst src : Nat} {m : Mem} {ns : Nat} (hd : VecAt m dst cap 0)
     (hs : VecAt m src cap ns) (hns : ns ≤ cap) (dis : dst + cap ≤ src ∨ src + cap ≤ dst) :
-    ∃ m', ivMoveConstruct k m dst src ns = .ok (m', ns, 0) ∧ VecUpd2 m m' cap dst ns src 0 ∧
+    ∃ m' ns', ivMoveConstruct k m dst src ns = .ok (m', ns, ns') ∧ ns' ≤ cap ∧ VecUpd2 m m' cap dst ns src ns' ∧
       (Bal m → Bal m') := by
   obtain ⟨m1, r1, s1, _, _, b1⟩ := constructRange_ok k true ns m dst src (fun y h1 h2 => hs.live hns h1 h2)
     (fun y h1 h2 => hd.dead (by omega) (by omega))
-  obtain ⟨m2, r2, s2, _, b2⟩ := destroyRange_ok ns m1 src (fun y h1 h2 => by
-    rw [s1 y, if_neg (by omega)]
-    exact hs.live hns h1 h2)
-  refine ⟨m2, by simp [ivMoveConstruct, r1, r2], fun y => ?_, fun h => b2 (b1 h)⟩
-  rw [s2 y, s1 y]
-  by_cases hy : src ≤ y ∧ y < src + cap
-  · rw [hs y hy.1 hy.2]
-    ifs
-  · (repeat' split) <;> vec_leaf hd, y
+  cases htm : k.trivMC
+  · obtain ⟨m2, r2, s2, _, b2⟩ := destroyRange_ok ns m1 src (fun y h1 h2 => by
+      rw [s1 y, if_neg (by omega)]
+      exact hs.live hns h1 h2)
+    refine ⟨m2, 0, by simp [ivMoveConstruct, r1, r2, htm], Nat.zero_le _, fun y => ?_, fun h => b2 (b1 h)⟩
+    rw [s2 y, s1 y]
+    by_cases hy : src ≤ y ∧ y < src + cap
+    · rw [hs y hy.1 hy.2]
+      ifs
+    · (repeat' split) <;> vec_leaf hd, y
+  · refine ⟨m1, ns, by simp [ivMoveConstruct, r1, htm], hns, fun y => ?_, b1⟩
+    rw [s1 y]
+    by_cases hy : src ≤ y ∧ y < src + cap
+    · rw [hs y hy.1 hy.2]
+      ifs
+    · (repeat' split) <;> vec_leaf hd, y
 
 theorem VecUpd2.of_upd {m m1 m2 : Mem} {cap b1 n n1 b2 n2 : Nat} (h1 : VecUpd m m1 b1 cap n)
     (h2 : VecUpd2 m1 m2 cap b1 n1 b2 n2) : VecUpd2 m m2 cap b1 n1 b2 n2 := by
@@ -1139,10 +1147,10 @@ theorem vstep_inv_iv (k : Kind) (cap : Nat) (s : St) (t : Bool) (op : VOp) (hi :
     obtain ⟨m1, r1, v1, _⟩ := svClear_ok hva hna
     have hvo1 : VecAt m1 (baseOf cap (!t)) cap (s.sz (!t)) :=
       hvo.of_eq (fun y h1 h2 => v1.upd.out (by have := out_ob cap t; omega))
-    obtain ⟨m2, r2, u2, b2⟩ := ivMoveConstruct_ok k (src := baseOf cap (!t)) (ns := s.sz (!t)) v1.upd.at hvo1 hno
+    obtain ⟨m2, ns', r2, hns', u2, b2⟩ := ivMoveConstruct_ok k (src := baseOf cap (!t)) (ns := s.sz (!t)) v1.upd.at hvo1 hno
       (out_ob cap t)
-    exact ⟨s.put2 t m2 (s.sz (!t)) 0, by simp only [vstep, ivClear, r1, r2],
-      inv_put2 hi hno (Nat.zero_le _) (VecUpd2.of_upd v1.upd u2) (fun hb => b2 (v1.bal hb))⟩
+    exact ⟨s.put2 t m2 (s.sz (!t)) ns', by simp only [vstep, ivClear, r1, r2],
+      inv_put2 hi hno hns' (VecUpd2.of_upd v1.upd u2) (fun hb => b2 (v1.bal hb))⟩
   | insc pos v => simp [vvalid] at hv
   | insm pos v => simp [vvalid] at hv
   | insn pos cnt v => simp [vvalid] at hv
